@@ -445,12 +445,24 @@ func (w *Walker) load(addr *Term, instr ssa.Instruction, fn *ssa.Function, depth
 		return c.Val
 	}
 	v := addr.Cell.Val
+	if addr.Cell.Sym && len(addr.Path) > 0 {
+		// storage of the caller (receiver, parameters): what its unexported fields can hold is known from the
+		// stores of the package (fieldfacts.go)
+		for _, s := range addr.Path {
+			if it, ok := w.symIdx[s]; ok && strings.HasPrefix(s, "#") && v.Op == "slicev" {
+				v = &Term{Op: "index", Args: []*Term{v, it}, Typ: elemType(v.Typ)}
+				continue
+			}
+			v = w.applyFieldFacts(project(v, s))
+		}
+		return w.dispatchIndex(v)
+	}
 	for _, s := range addr.Path {
 		if it, ok := w.symIdx[s]; ok && strings.HasPrefix(s, "#") && v.Op == "slicev" {
 			v = &Term{Op: "index", Args: []*Term{v, it}, Typ: elemType(v.Typ)}
 			continue
 		}
-		v = project(v, s)
+		v = w.applyFieldFacts(project(v, s))
 	}
 	return w.dispatchIndex(v)
 }
@@ -541,6 +553,16 @@ func shortPkg(p *types.Package) string {
 func calleeName(fn *ssa.Function) string {
 	if fn == nil {
 		return "?"
+	}
+	// a method expression T.M is compiled to a thunk that calls the method with its first argument as receiver
+	if strings.HasSuffix(fn.Name(), "$thunk") && fn.Synthetic != "" && len(fn.Blocks) == 1 {
+		for _, in := range fn.Blocks[0].Instrs {
+			if c, ok := in.(*ssa.Call); ok {
+				if f := c.Call.StaticCallee(); f != nil {
+					return calleeName(f)
+				}
+			}
+		}
 	}
 	base := fn
 	targs := ""
@@ -1005,7 +1027,11 @@ func (w *Walker) step(fr *frame, in ssa.Instruction) {
 				n, ok = reg[0].Lo, true
 			}
 		}
-		if ok && n >= 0 && n <= 256 {
+		limit := int64(4096) // as large as the arrays a constant-size make compiles to
+		if ok && !ln.IsConst() {
+			ln = mkInt(n, ln.Typ) // the path has pinned the length to this value
+		}
+		if ok && n >= 0 && n <= limit {
 			c := w.newCell("makeslice", types.NewArray(et, n), true)
 			fr.env[x] = &Term{Op: "sref", Cell: c, Typ: x.Type(), Args: []*Term{mkInt(0, types.Typ[types.Int]), mkInt(n, types.Typ[types.Int])}}
 		} else {
@@ -1273,10 +1299,20 @@ func (w *Walker) indexAddr(base, idx *Term, x *ssa.IndexAddr, fn *ssa.Function, 
 	}
 	switch base.Op {
 	case "ptr": // pointer to array
+		if n, ok := idx.Int64(); ok && base.Typ != nil {
+			if pt, isPtr := base.Typ.Underlying().(*types.Pointer); isPtr {
+				if at, isArr := pt.Elem().Underlying().(*types.Array); isArr && (n < 0 || n >= at.Len()) {
+					w.abort("panic", fmt.Sprintf("index %d out of range of a %d-element array at %s", n, at.Len(), w.P.Pos(x.Pos())))
+				}
+			}
+		}
 		return &Term{Op: "ptr", Cell: base.Cell, Path: append(append([]string{}, base.Path...), sel), Typ: x.Type()}
 	case "sref":
 		lo, _ := base.Args[0].Int64()
 		if n, ok := idx.Int64(); ok {
+			if hi, okh := base.Args[1].Int64(); okh && (n < 0 || lo+n >= hi) {
+				w.abort("panic", fmt.Sprintf("index %d out of range of a slice of %d elements at %s", n, hi-lo, w.P.Pos(x.Pos())))
+			}
 			sel = fmt.Sprintf("#%d", lo+n)
 		}
 		return &Term{Op: "ptr", Cell: base.Cell, Path: []string{sel}, Typ: x.Type()}
@@ -1456,6 +1492,11 @@ func (w *Walker) calleeOf(fr *frame, c *ssa.CallCommon) (string, *Term) {
 	if v.Op == "closure" {
 		return calleeName(v.Fn), v
 	}
+	if v.Fn != nil && v.Op == "field" {
+		// a function-typed field that only ever holds one function (fieldfacts.go): called, it is that function
+		cl := &Term{Op: "closure", Fn: v.Fn, Typ: v.Typ}
+		return calleeName(v.Fn), cl
+	}
 	return "dyn:" + v.String(), nil
 }
 
@@ -1493,6 +1534,25 @@ func (w *Walker) call(fr *frame, c *ssa.CallCommon, in ssa.Instruction, rt types
 	}
 	// an interface method called on a value whose dynamic type is known on this path (a strategy object built a
 	// few lines earlier): the call is the call of that type's method
+	if c.IsInvoke() && len(args) > 0 && args[0].Op != "iface" && args[0].Dyn != nil && !args[0].IsNilConst() {
+		// an interface-typed field that only ever holds values of one concrete type (fieldfacts.go): on a path
+		// where it is called it is not nil, so it holds a value of that type. Only thin adapters are entered
+		// (a clock that returns time.Now()); a seam whose implementation is a subsystem of its own (the
+		// driver) stays the event the rules observe.
+		thin := false
+		if sel := w.P.SSA.MethodSets.MethodSet(args[0].Dyn).Lookup(c.Method.Pkg(), c.Method.Name()); sel != nil {
+			if callee := w.P.SSA.MethodValue(sel); callee != nil && callee.Blocks != nil && len(callee.Blocks) <= 2 {
+				n := 0
+				for _, b := range callee.Blocks {
+					n += len(b.Instrs)
+				}
+				thin = n <= 10
+			}
+		}
+		if thin {
+			args[0] = &Term{Op: "iface", Args: []*Term{{Op: "conv", Name: "assert:" + typeName(args[0].Dyn), Args: []*Term{args[0]}, Typ: args[0].Dyn}}, Dyn: args[0].Dyn, Typ: args[0].Typ}
+		}
+	}
 	if c.IsInvoke() && len(args) > 0 && args[0].Op == "iface" && args[0].Dyn != nil && w.Inline != nil && depth < w.MaxDepth {
 		if sel := w.P.SSA.MethodSets.MethodSet(args[0].Dyn).Lookup(c.Method.Pkg(), c.Method.Name()); sel != nil {
 			if callee := w.P.SSA.MethodValue(sel); callee != nil && callee.Blocks != nil && inModule(callee) && !w.Opaque[calleeName(callee)] && w.Inline(callee, depth) {
